@@ -16,7 +16,7 @@
    per-object `_cache`, the dependents of `other`, views created by slicing, and who shares memory
    with whom.
 
-   Machine `step q` has five switches (quirks observed in the code); the specification is
+   Machine `step q` has six switches (quirks observed in the code); the specification is
    `step all_off`. *)
 From Coq Require Import ZArith List Bool Lia.
 From Verif Require Import Lib.C08_Lru.
@@ -45,13 +45,20 @@ Record quirks : Set := mkQ {
   q_alias : bool;   (* c08_result_aliases_cache  the memoised functions hand out the cached array itself *)
   q_ro    : bool;   (* c08_arg_made_readonly     HashArray.__array_finalize__ clears `writeable` on the caller's array *)
   q_view  : bool;   (* c08_view_write_stale      item assignment through a slice does not invalidate its base (and back) *)
-  q_hand  : bool    (* c08_object_cache_handout  p.llh / p.distance return the `_cache` entry itself *)
+  q_hand  : bool;   (* c08_object_cache_handout  p.llh / p.distance return the `_cache` entry itself *)
+  q_sval  : bool    (* c08_scalar_key_by_value   numpy scalars (lat, lon of a single position) are memo keys compared by
+                       value: +0.0 and -0.0 share an entry *)
 }.
-Definition all_off : quirks := mkQ false false false false false.
-Definition all_on : quirks := mkQ true true true true true.
+Definition all_off : quirks := mkQ false false false false false false.
+Definition all_on : quirks := mkQ true true true true true true.
+
+(* bit pattern of -0.0 read as +0.0 *)
+Definition zero_norm (w : Z) : Z := if w =? 9223372036854775808 then 0 else w.
 
 Definition karg_eqb (q : quirks) (a b : karg) : bool :=
-  Bool.eqb (fst a) (fst b) && zlist_eqb (snd (snd a)) (snd (snd b))
+  Bool.eqb (fst a) (fst b)
+  && (if q_sval q && fst a then zlist_eqb (map zero_norm (snd (snd a))) (map zero_norm (snd (snd b)))
+      else zlist_eqb (snd (snd a)) (snd (snd b)))
   && (q_shape q || zlist_eqb (fst (snd a)) (fst (snd b))).
 
 Fixpoint kargs_eqb (q : quirks) (a b : list karg) : bool :=
@@ -332,7 +339,7 @@ Section Machine.
   (* numpy scalars (distance of a single position, ...) cannot be written into *)
   (* a machine with quirks that cannot predict a derived value (its ingredients are not in the table of
      reference results) remembers that the implementation has memoised *something* there *)
-  Definition any_quirk : bool := q_shape q || q_alias q || q_ro q || q_view q || q_hand q.
+  Definition any_quirk : bool := q_shape q || q_alias q || q_ro q || q_view q || q_hand q || q_sval q.
   Definition unknown_arr : arr := ([-1], []).
   Definition taint (w : world) (p : nat) (qt : Z) : world :=
     if any_quirk then
@@ -593,14 +600,14 @@ Fixpoint agrees (pf : Z -> Z -> list karg -> option arr) (q : quirks) (w : world
   end.
 
 Definition q_of_bits (n : Z) : quirks :=
-  mkQ (Z.testbit n 0) (Z.testbit n 1) (Z.testbit n 2) (Z.testbit n 3) (Z.testbit n 4).
+  mkQ (Z.testbit n 0) (Z.testbit n 1) (Z.testbit n 2) (Z.testbit n 3) (Z.testbit n 4) (Z.testbit n 5).
 
 (* candidate machines, fewest quirks first *)
 Definition candidates : list Z :=
   [1; 2; 4; 8; 16;
    3; 5; 6; 9; 10; 12; 17; 18; 20; 24;
    7; 11; 13; 14; 19; 21; 22; 25; 26; 28;
-   15; 23; 27; 29; 30; 31].
+   15; 23; 27; 29; 30; 31; 32; 48; 40; 56; 63].
 
 Fixpoint first_agreeing (pf : Z -> Z -> list karg -> option arr) (ops : list op) (seen : list (arr * Z))
          (cs : list Z) : Z :=
@@ -610,7 +617,7 @@ Fixpoint first_agreeing (pf : Z -> Z -> list karg -> option arr) (ops : list op)
   end.
 
 (* verdict: 0 = the implementation equals the specification machine; 32 + bits = equals the machine with
-   that set of quirks (bit 0 shape, 1 alias, 2 read-only, 3 view, 4 hand-out); 1 = unexplained *)
+   that set of quirks (bit 0 shape, 1 alias, 2 read-only, 3 view, 4 hand-out, 5 scalar keys by value); 1 = unexplained *)
 Definition check_hist_with (cs : list Z) (c : table * list op * list (arr * Z)) : Z :=
   let '(t, ops, seen) := c in
   let pf := pf_of_table t in
